@@ -45,8 +45,34 @@ pub struct Trace {
     pub n: usize,
 }
 
+/// A logger that formats every record and throws it away: with it installed the arguments of the crate's `error!` /
+/// `debug!` / `trace!` lines are evaluated (slicing, Display/Debug implementations), as they are in a daemon that logs;
+/// without a logger the `log` macros skip them, and a panic inside a log line would go unseen.
+struct EvalLogger;
+impl log::Log for EvalLogger {
+    fn enabled(&self, _: &log::Metadata) -> bool {
+        true
+    }
+    fn log(&self, record: &log::Record) {
+        use std::io::Write;
+        let _ = write!(std::io::sink(), "{}", record.args());
+    }
+    fn flush(&self) {}
+}
+static EVAL_LOGGER: EvalLogger = EvalLogger;
+pub fn install_logger() {
+    static ONCE: std::sync::Once = std::sync::Once::new();
+    ONCE.call_once(|| {
+        if std::env::var_os("VERIF_NO_LOGGER").is_none() && log::set_logger(&EVAL_LOGGER).is_ok() {
+            log::set_max_level(log::LevelFilter::Trace);
+        }
+    });
+}
+
 impl Trace {
     pub fn create(path: &str) -> Self {
+        // every harness binary opens a trace first: the crate's log lines are evaluated in all of them
+        install_logger();
         let f = std::fs::File::create(path).expect("create trace file");
         Trace {
             out: std::io::BufWriter::new(f),
